@@ -234,6 +234,37 @@ def check_rvint_output_modes(run, bitpacked):
                         buf = bufs[which[0]]
                         if not ((buf[:G] == 12345.0).all() and (buf[G + 3 * N :] == 12345.0).all()):
                             run.violation('rvint-output-canary', dict(which=which, **desc))
+    # supplied outputs whose dtype differs from float_dtype, and strided (non-contiguous) supplied outputs:
+    # the documented contract is "the array in which to store the unpacked positions"
+    for fdt, bdt in ((np.float32, np.float64), (np.float64, np.float32)):
+        box = 500.0
+        for layout in ('contig', 'flat', 'strided'):
+            if layout == 'strided':
+                big = np.full((N, 6), 777.0, dtype=bdt)
+                po, vo = big[:, :3], big[:, 3:]
+            else:
+                po = np.full((N, 3), 777.0, dtype=bdt)
+                vo = np.full((N, 3), 777.0, dtype=bdt)
+                if layout == 'flat':
+                    po, vo = po.reshape(-1), vo.reshape(-1)
+            run.ev()
+            run.nt(('rv_modes_mixed', np.dtype(fdt).str, np.dtype(bdt).str, layout))
+            desc = dict(float_dtype=np.dtype(fdt).str, buffer_dtype=np.dtype(bdt).str, layout=layout)
+            try:
+                ret = bitpacked.unpack_rvint(w, box, float_dtype=fdt, posout=po, velout=vo)
+            except Exception as e:
+                if layout == 'strided':
+                    run.count('strided_supplied_output_rejected')  # a refusal is not a wrong result
+                    continue
+                run.violation('rvint-output-mode', dict(problem=f'supplied output raises {type(e).__name__}: {e}'[:200], **desc))
+                continue
+            rp, rv = ref_rvint(w, box, bdt)
+            low = np.float32
+            for which, out, ref, r in (('pos', po, rp, ret[0]), ('vel', vo, rv, ret[1])):
+                got = np.asarray(out).reshape(N, 3)
+                if r != N or not core.ulp_diff_ok(got, ref, 2, low).all():
+                    run.violation('rvint-output-mode', dict(which=which, problem='supplied output not filled with the decoded values', ret=repr(r), first_row=got[0].tolist(), expected=ref[0].tolist(), **desc))
+                    break
     # empty input
     for dtype in (np.float32, np.float64):
         r = bitpacked.unpack_rvint(np.zeros((0, 3), dtype=np.int32), 1.0, float_dtype=dtype)
